@@ -1,6 +1,6 @@
 """C10 — UDP datagram fidelity and session isolation (the accept step of the reverse UDP listener)."""
 import harness
-from specs import udp, codec
+from specs import udp, codec, fragment
 
 
 def run(ck):
@@ -10,7 +10,8 @@ def run(ck):
     ck.assumptions += ['every await completes; the session table (CHashMap) and the mpsc channel behave as a map / a FIFO',
                        'Frame::recv_from yields one whole datagram and its source address']
     ck.out_of_scope += ['SOCKS5 UDP associate, QUIC datagrams, session tables of the HTTP/QUIC hops (socket-driven loops across tasks); the frame reader of the inline stream hop IS included', 'reply path and labelling of replies',
-                        'payloads larger than one QUIC packet (C11 decides fragmentation)', 'tproxy UDP accept (recvmsg ancillary data)']
+                        'reassembly of fragments under reordering / duplication (C11; the PRODUCER side -- a payload larger than one QUIC packet is cut into fragments that announce their own number and carry every byte once -- is shared with C11 and decided here too)',
+                        'tproxy UDP accept (recvmsg ancillary data)']
     udp.spec_reverse_udp_accept(ck)
     udp.spec_reverse_session_end(ck)
     udp.spec_udp_frame_reader(ck)
@@ -21,6 +22,13 @@ def run(ck):
     # destination and the same payload, for every destination and every payload length including 0 (shared with C03)
     codec.spec_socks_udp_roundtrip(ck)
     codec.spec_rpfm_roundtrip(ck)
+    # payloads larger than one QUIC packet: the fragment producer (count announced == fragments sent, every byte once) and a bounded
+    # history through the real reassembly (shared with C11)
+    ck.plans.append(fragment.replay_plan)
+    fragment.spec_make_fragments_new(ck, True)
+    fragment.spec_make_fragments_next(ck, True)
+    fragment.spec_make_fragments_entry(ck, True)
+    fragment.spec_fragments_history(ck)
     keep = ('C10/', 'C12/stream-frames/', 'C03/socks-udp/encoded-frame-decodes', 'C03/socks-udp/decoded-destination-equals-sent', 'C03/socks-udp/payload-exact',
-            'C03/rpfm/decoded-destination-equals-sent-or-error', 'C03/rpfm/body-not-mixed-with-address')
+            'C03/rpfm/decoded-destination-equals-sent-or-error', 'C03/rpfm/body-not-mixed-with-address', 'C11/producer/', 'C11/make_fragments/', 'C11/history/')
     ck.post_filter = lambda o: o.label.startswith(keep) or o.status in ('undecided', 'vacuous', 'inconclusive')
